@@ -9,6 +9,7 @@ CONSTANTS K = 2
           MaxClock = 3
           LibFoldersInKey = TRUE
           Beyond = {"backdated"}
+          OptionValuesCompared = TRUE
           FreshLibHandles = TRUE
 INIT Init
 NEXT Next
